@@ -181,6 +181,17 @@ def rule_r2(prog, res) -> None:
         n += 1
         res.touch(m)
         inval = [nd for nd, e, leaf, _ in effs if leaf == tmark and e.op in ("unlink", "rename", "replace")]
+        # `if marker.exists(): marker.unlink()` — on the other branch there is no marker to invalidate
+        for nd, e, leaf, _ in effs:
+            if leaf == tmark and e.op == "exists" and nd.kind == "test":
+                try:
+                    from ..effects import eval_test as _ev
+
+                    for pol, b in branch_nodes_of(cfg, nd).items():
+                        if bool(_ev(nd.expr, {"exists()": False, "is_file()": False})) == pol:
+                            inval.append(b)
+                except Exception:
+                    pass
         reach = cfg.reach([cfg.entry], avoid=lambda x: x in inval)
         bad = [t for t in trunc if t.id in reach]
         if bad:
